@@ -564,6 +564,8 @@ type runner struct {
 	hazards bool              // also generate the two inputs listed as known findings (they kill the kernel)
 
 	inRedo      bool
+	smKey       int // pool key the harness's state machine signs with (-1: it does not vote)
+	actions     chan tmengine.VerifMRoundAction
 	forceReplay int // the next replay uses this variant
 	script []string // scripted operations still to run: interleaving templates that random choice rarely lines up
 
@@ -676,9 +678,15 @@ func (rn *runner) barrier() {
 // the state machine enters (h, r)
 func (rn *runner) doEnter(h uint64, r uint32) {
 	hc := make(chan struct{})
+	rn.actions = make(chan tmengine.VerifMRoundAction, 3)
+	var pk gcrypto.PubKey
+	if rn.smKey >= 0 {
+		pk = rn.w.pool[rn.smKey].Val.PubKey
+	}
 	re := tmengine.VerifMRoundEntrance{
 		H: h, R: r,
-		Actions:         make(chan tmengine.VerifMRoundAction, 3),
+		PubKey:          pk,
+		Actions:         rn.actions,
 		HeightCommitted: hc,
 		Response:        make(chan tmengine.VerifMRoundEntranceResponse, 1),
 	}
@@ -1389,7 +1397,19 @@ func (rn *runner) concurrentRound() {
 	}
 	if rn.consumers && (!rn.entered || H > rn.lastEnterH || (H == rn.lastEnterH && R > rn.lastEnterR)) && w.r.chance(1, 2) {
 		rn.entered, rn.lastEnterH, rn.lastEnterR = true, H, R
+		if rn.smKey < 0 || w.r.chance(1, 4) {
+			rn.smKey = cur.keys[w.r.below(n)]
+		}
 		rn.doEnter(H, R)
+	}
+	if rn.consumers && rn.entered && rn.lastEnterH == H && rn.lastEnterR == R && len(rn.knownPHs[hr{H, R}]) > 0 && w.r.chance(1, 2) {
+		// the local validator is late: the network commits the block while its own vote (nil, which nobody else cast)
+		// is still on its way; the round it entered is the committing view by the time the vote arrives
+		rn.stats["late_local_vote"]++
+		blk := string(rn.knownPHs[hr{H, R}][0].Header.Hash)
+		rn.doVotes(kindPrecommit, H, R, pkh, []voteEntry{{blk, rn.mkSigs(cur, kindPrecommit, H, R, blk, allIdx(n), 0)}})
+		rn.doActionVote(kindPrevote+w.r.below(2), "")
+		return
 	}
 	targets := []string{""}
 	for _, p := range rn.knownPHs[hr{H, R}] {
@@ -1479,13 +1499,61 @@ func (rn *runner) concurrentRound() {
 	rn.io = TL([]string{TN(0)})
 	rn.printStep("STEP %s @@ %d @@ %s\n", "batch", 0, rn.observe())
 	if rn.consumers {
+		if rn.entered && w.r.chance(2, 3) {
+			// the state machine's own vote, possibly late (the mirror may have moved on meanwhile)
+			t := targets[w.r.below(len(targets))]
+			rn.doActionVote(kindPrevote+w.r.below(2), t)
+		}
 		for i := 0; i < 3; i++ {
 			rn.doGRead()
 			if rn.entered {
 				rn.doSMRead()
 			}
 		}
+		if w.r.chance(1, 5) {
+			// a clean restart on the same stores: everything persisted so far must load
+			rn.stats["concurrent_restart"]++
+			if !rn.restartMirror("XRestart") {
+				fmt.Fprintf(rn.out, "HUNG restart failed after a concurrent batch at %d/%d\n", H, R)
+				rn.hungExit()
+			}
+			rn.entered = false
+		}
 	}
+}
+
+// doActionVote: the state machine hands the mirror its own vote for the round it entered
+func (rn *runner) doActionVote(kind int, target string) {
+	if !rn.entered || rn.smKey < 0 || rn.actions == nil {
+		return
+	}
+	h, r := rn.lastEnterH, rn.lastEnterR
+	vt := tmconsensus.VoteTarget{Height: h, Round: r, BlockHash: target}
+	var sb []byte
+	if kind == kindPrevote {
+		sb, _ = tmconsensus.PrevoteSignBytes(vt, rn.w.ss)
+	} else {
+		sb, _ = tmconsensus.PrecommitSignBytes(vt, rn.w.ss)
+	}
+	sig := rn.w.voteSig(rn.smKey, kind, h, r, target)
+	act := tmengine.VerifMRoundAction{}
+	ss := tmengine.VerifMScopedSignature{TargetHash: target, SignContent: sb, Sig: sig}
+	if kind == kindPrevote {
+		act.Prevote = ss
+	} else {
+		act.Precommit = ss
+	}
+	select {
+	case rn.actions <- act:
+	case <-time.After(2 * time.Second):
+		panic("kernel did not take the state machine action")
+	}
+	rn.touched[hr{h, r}] = true
+	rn.barrier()
+	rn.barrier()
+	rn.stats[fmt.Sprintf("sm_action_%d", kind)]++
+	rn.io = TL([]string{TN(0)})
+	rn.printStep("STEP %s @@ %d @@ %s\n", "action", 0, rn.observe())
 }
 
 // hungExit ends the process: a blocked kernel goroutine cannot be waited for
@@ -1867,7 +1935,7 @@ func runCase(idx int, seed uint64, nOps int, out io.Writer, stats map[string]int
 
 		AssertEnv: gasserttest.DefaultEnv(),
 	}
-	rn := &runner{w: w, cfg: cfg, initH: initH, genesis: genesis, cancel: cancel, bud: bud, pendingCrash: -1, crashes: crashMode, consumers: consumerMode, hazards: hazardMode, hdrCoq: map[string]string{},
+	rn := &runner{w: w, cfg: cfg, initH: initH, genesis: genesis, cancel: cancel, bud: bud, pendingCrash: -1, crashes: crashMode, consumers: consumerMode, hazards: hazardMode, hdrCoq: map[string]string{}, smKey: -1,
 		touched: map[hr]bool{}, out: out, valsAt: map[uint64]valset{}, knownPHs: map[hr][]tmconsensus.ProposedHeader{}, stats: stats}
 	rn.startMirror()
 	internTab = map[string]string{}
